@@ -182,7 +182,14 @@ def ite_dict(i, d, default):
     if len(d) < 4:
         return ite_cases([(i == c, v) for c, v in d.items()], default)
 
-    # otherwise, binary search.
+    # otherwise, binary search. `i <= split_val` below compares unsigned values of i's width, so integer keys
+    # have to be ordered the same way (the first of two keys denoting the same value wins, as in ite_cases)
+    if getattr(i, "length", None):
+        normalized = {}
+        for c, v in d.items():
+            normalized.setdefault(c % (1 << i.length) if isinstance(c, int) else c, v)
+        d = normalized
+
     # Find the median:
     keys = list(d.keys())
     keys.sort()
